@@ -18,9 +18,9 @@ MANIFEST = {
 
 INVARIANTS = ["C05_Gate", "C05_FailCancels"]
 PROPERTIES = ["C05_NeverRuns"]
-QUICK = ["diamond", "chain2"]
-THOROUGH = ["diamond", "chain2", "upd2", "grp2", "nest", "retry"]
-FINDINGS = [("ooc", "upd2", ["C05_Gate"])]
+QUICK = ['diamond', 'chain2']
+THOROUGH = ['diamond', 'chain2', 'upd2', 'grp2', 'nest_s', 'retry_s', 'nest']
+FINDINGS = []
 
 
 def run(ctx):
